@@ -19,6 +19,10 @@ type Subscription struct {
 	sub   Subscriber
 	field *Field
 	args  map[string]interface{}
+
+	// etype is the type of the events, the return type of the subscription
+	// field.
+	etype Type
 }
 
 // NewSubscription creates a new subscription. It should be called in a
@@ -32,5 +36,7 @@ func NewSubscription(sub Subscriber, field *Field, args map[string]interface{}) 
 }
 
 func (sub *Subscription) prep(root *Root) {
-	sub.field.ConType = root.getFieldType(sub.field.ConType, sub.field.Name)
+	// The field belongs to the executable which can be resolved again so it
+	// is left as is.
+	sub.etype = root.getFieldType(sub.field.ConType, sub.field.Name)
 }
